@@ -1138,11 +1138,8 @@ impl ASN1Value {
             ) => {
                 if let Some(option) = c.options.iter().find(|o| &o.name == variant_name) {
                     *tn = type_name.cloned();
-                    inner_value.link_with_type(
-                        tlds,
-                        &option.ty,
-                        Some(&option.ty.as_str().into_owned()),
-                    )
+                    let option_type_name = Self::nested_type_name(&option.ty, &option.name, type_name);
+                    inner_value.link_with_type(tlds, &option.ty, Some(&option_type_name))
                 } else {
                     Err(grammar_error!(
                         LinkerError,
@@ -1162,12 +1159,10 @@ impl ASN1Value {
                 } = &mut **value
                 {
                     if let Some(option) = c.options.iter().find(|o| &o.name == variant_name) {
+                        let option_type_name =
+                            Self::nested_type_name(&option.ty, &option.name, enum_name.as_ref());
                         *type_name = enum_name;
-                        inner_value.link_with_type(
-                            tlds,
-                            &option.ty,
-                            Some(&option.ty.as_str().into_owned()),
-                        )
+                        inner_value.link_with_type(tlds, &option.ty, Some(&option_type_name))
                     } else {
                         Err(grammar_error!(
                             LinkerError,
@@ -1540,6 +1535,17 @@ impl ASN1Value {
             }
             (_, ASN1Value::ElsewhereDeclaredValue { .. }) => Err(GrammarError::todo()),
             _ => Ok(()),
+        }
+    }
+
+    /// The name under which the type of a component or alternative is generated: its own
+    /// name if it is a reference, the internal name of the nested type if it is written in place
+    fn nested_type_name(ty: &ASN1Type, name: &str, parent: Option<&String>) -> String {
+        match (ty.is_builtin_type(), parent) {
+            (true, Some(parent)) => {
+                INTERNAL_NESTED_TYPE_NAME_PREFIX.to_owned() + name + "$" + parent
+            }
+            _ => ty.as_str().into_owned(),
         }
     }
 
